@@ -92,6 +92,31 @@ pub struct ListNode {
 const LIST_SCHEMA: &str = r#"{"type":"record","name":"ListNode","fields":[
  {"name":"v","type":"int"},{"name":"next","type":["null","ListNode"]},{"name":"kids","type":{"type":"array","items":"ListNode"}}]}"#;
 
+/// fixed-length Rust sequences (tuples, arrays, tuple structs) over Avro arrays, each followed by more data
+#[derive(Serialize, Deserialize, Debug, PartialEq, Clone)]
+pub struct Pt(pub i32, pub i32);
+#[derive(Serialize, Deserialize, Debug, PartialEq, Clone)]
+pub struct Tuples {
+	pub pair: (i32, i32),
+	pub after_pair: i64,
+	pub triple: [i64; 3],
+	pub pt: Pt,
+	pub mixed: (String, String),
+	pub pairs: Vec<(i32, i32)>,
+	pub last: String,
+}
+const TUPLES_SCHEMA: &str = r#"{"type":"record","name":"t.Tuples","fields":[
+ {"name":"pair","type":{"type":"array","items":"int"}},{"name":"after_pair","type":"long"},
+ {"name":"triple","type":{"type":"array","items":"long"}},
+ {"name":"pt","type":{"type":"array","items":"int"}},
+ {"name":"mixed","type":{"type":"array","items":"string"}},
+ {"name":"pairs","type":{"type":"array","items":{"type":"array","items":"int"}}},
+ {"name":"last","type":"string"}]}"#;
+fn tuples_schema() -> &'static Schema {
+	static S: OnceLock<Schema> = OnceLock::new();
+	S.get_or_init(|| TUPLES_SCHEMA.parse().expect("fixture schema"))
+}
+
 fn schemas() -> &'static (Schema, Schema, Schema) {
 	static S: OnceLock<(Schema, Schema, Schema)> = OnceLock::new();
 	S.get_or_init(|| {
@@ -194,7 +219,21 @@ where
 
 pub fn c01_fixture_case(ctx: &mut Ctx, case_seed: u64, rng: &mut Rng) {
 	let (s_b, s_c, s_l) = schemas();
-	match rng.below(3) {
+	match rng.below(4) {
+		3 => {
+			let v = Tuples {
+				pair: (ValueGen::interesting_i32(rng), ValueGen::interesting_i32(rng)),
+				after_pair: ValueGen::interesting_i64(rng),
+				triple: [ValueGen::interesting_i64(rng), ValueGen::interesting_i64(rng), ValueGen::interesting_i64(rng)],
+				pt: Pt(ValueGen::interesting_i32(rng), rng.below(5) as i32),
+				mixed: (format!("a{}", rng.below(100)), "é".repeat(rng.below(4))),
+				pairs: (0..rng.below(4)).map(|_| (ValueGen::interesting_i32(rng), rng.below(9) as i32)).collect(),
+				last: format!("end{}", rng.below(1000)),
+			};
+			if rt(ctx, case_seed, "Tuples", tuples_schema(), &v, rng).is_some() {
+				ctx.count("typed_fixed_length_sequences");
+			}
+		}
 		0 => {
 			let name: String = ValueGen::new(&crate::refavro::schema::RSchema { nodes: vec![] }).string(rng);
 			let nblob = rng.below(20);
